@@ -8,7 +8,6 @@ import (
 	"bufio"
 	"bytes"
 	"encoding/json"
-	"errors"
 	"flag"
 	"fmt"
 	"io"
@@ -21,6 +20,8 @@ import (
 	"strings"
 	"sync"
 	"time"
+
+	"verifharness/fakesvc"
 
 	"github.com/buildbuildio/pebbles/queryer"
 	"github.com/buildbuildio/pebbles/requests"
@@ -141,7 +142,8 @@ func (t *transport) RoundTrip(req *http.Request) (*http.Response, error) {
 	t.mu.Unlock()
 	switch st {
 	case "failerr":
-		return nil, errors.New("connection refused (injected)")
+		// (what net/http reports when the peer goes away after the request was written; see fakesvc.LostConn)
+		return nil, fakesvc.LostConn{}
 	case "fail500":
 		return &http.Response{StatusCode: 500, Body: io.NopCloser(strings.NewReader("boom")), Header: http.Header{}}, nil
 	case "failbody":
